@@ -9,7 +9,7 @@ for mp in sorted(glob.glob(os.path.join(HERE, "seeded", "C*-*", "meta.json"))):
     m = json.load(open(mp))
     notes = open(os.path.join(d, "notes.md")).read() if os.path.exists(os.path.join(d, "notes.md")) else ""
     letter = sid.split("-")[1]
-    letter = {"C": "A", "D": "B", "E": "A", "F": "B", "G": "A", "H": "B"}.get(letter, letter) if m.get("round") in (2, 3, 4) else letter      # later rounds' agents called their changes A and B
+    letter = {"C": "A", "D": "B", "E": "A", "F": "B", "G": "A", "H": "B", "I": "A", "J": "B"}.get(letter, letter) if m.get("round") in (2, 3, 4, 5) else letter      # later rounds' agents called their changes A and B
     heads = [l for l in notes.splitlines() if re.match(r"^#+\s*(%s\b|Mutant %s|Mutation %s|Change %s|Patch %s)" % ((letter,) * 5), l)]
     m["summary"] = re.sub(r"^#+\s*", "", heads[0]).strip() if heads else m.get("summary", "")
     p = os.path.join(out, sid + ".txt")
